@@ -260,9 +260,10 @@ class TokenInput:
 
 
 class TextInput:
-    """Scannerless text. mode 'complete': a terminal matches every substring in its regular language;
-    mode 'longest': a terminal occurrence is its re.match at that position. Ignored terminals (greedy matches) may
-    precede any token and follow the last one."""
+    """Scannerless text. mode 'complete': a terminal matches every substring in its regular language; mode 'longest': a
+    terminal occurrence is its longest match at that position; 'lark_dynamic' / 'lark_complete': the implementation's
+    approximations through re's preferred match (used only to attribute a deviation to the recorded finding).
+    Ignored terminals (greedy matches) may precede any token and follow the last one."""
 
     def __init__(self, text, regexps, ignore=(), mode='complete', flags=0):
         self.text = text
@@ -293,9 +294,30 @@ class TextInput:
             rx = self.rx[term]
             for i2 in self.gap_closure(i):
                 if self.mode == 'longest':
+                    # the terminal's longest match at this position (as the property states it)
+                    best = None
+                    for j in range(self.n, i2, -1):
+                        if rx.fullmatch(self.text, i2, j):
+                            best = j
+                            break
+                    if best is not None:
+                        out.append((i2, best))
+                elif self.mode == 'lark_dynamic':
+                    # what the implementation takes for "longest": re's preferred match
                     m = rx.match(self.text, i2)
                     if m and m.end() > i2:
                         out.append((i2, m.end()))
+                elif self.mode == 'lark_complete':
+                    # the implementation's enumeration: the preferred match and the preferred matches of its proper prefixes
+                    m = rx.match(self.text, i2)
+                    if m and m.end() > i2:
+                        ends = {m.end()}
+                        s0 = m.group(0)
+                        for j in range(1, len(s0)):
+                            m2 = rx.match(s0[:-j])
+                            if m2 and m2.end() > 0:
+                                ends.add(i2 + m2.end())
+                        out.extend((i2, e) for e in sorted(ends))
                 else:
                     for j in range(i2 + 1, self.n + 1):
                         if rx.fullmatch(self.text, i2, j):
